@@ -110,7 +110,12 @@ inductive Op where
   | step (id : Nat) (st : Settings)         -- run-step (externalises the instance afterwards)
   | crash                                   -- the process is lost between two requests; a new one is started
   | crashInWrite (id : Nat) (st : Settings) -- run-step, the process is lost while writing the state file; restart
+  | damage (id : Nat)                       -- the stored state file of `id` is damaged (disk fault), the process restarts
 deriving DecidableEq, Repr
+
+/-- an existing state file becomes unreadable -/
+def damageFile (s : Server σ) (id : Nat) : Server σ :=
+  if (s.files id).isSome then { s with files := upd s.files id (some .torn) } else s
 
 /-- the run with crashes -/
 def stepC (d : Dyn σ ρ) (s : Server σ) : Op → Server σ × Resp ρ
@@ -128,6 +133,7 @@ def stepC (d : Dyn σ ρ) (s : Server σ) : Op → Server σ × Resp ρ
     match eff d s id with
     | none => (restart d s, .none)
     | some _ => (restart d { s with files := upd s.files id (some .torn) }, .none)
+  | .damage id => (restart d (damageFile s id), .none)
 
 /-- the uninterrupted run: same requests, the process never dies -/
 structure UServer (σ : Type) where
@@ -149,6 +155,7 @@ def stepU (d : Dyn σ ρ) (s : UServer σ) : Op → UServer σ × Resp ρ
     match s.live id with
     | none => (s, .none)
     | some i => ({ s with live := upd s.live id (some (runStep d i st).1) }, .none)
+  | .damage _ => (s, .none)
 
 def runC (d : Dyn σ ρ) : Server σ → List Op → List (Resp ρ)
   | _, [] => []
@@ -179,9 +186,10 @@ def histDyn : Dyn (List (Time × Settings)) (List (Time × Settings)) :=
 structure Cfg where
   replayIsComplete : Bool
   atomicWrite : Bool
+  loadIsPerEntry : Bool        -- wave 3: `load_state` treats every listed file on its own (see `loadEntries`)
 deriving DecidableEq, Repr
 
-def Cfg.good (c : Cfg) : Bool := c.replayIsComplete
+def Cfg.good (c : Cfg) : Bool := c.replayIsComplete && c.loadIsPerEntry
 
 /-- the logged steps up to and including the last one that carried settings -/
 def uptoLastSettings : List (Time × Settings) → List (Time × Settings)
@@ -220,6 +228,7 @@ def stepCC (c : Cfg) (d : Dyn σ ρ) (s : Server σ) : Op → Server σ × Resp 
     | some _ =>
       if c.atomicWrite then (restartC c d s, .none)      -- only the temporary file is torn
       else (restartC c d { s with files := upd s.files id (some .torn) }, .none)
+  | .damage id => (restartC c d (damageFile s id), .none)
 
 def runCC (c : Cfg) (d : Dyn σ ρ) : Server σ → List Op → List (Resp ρ)
   | _, [] => []
@@ -251,5 +260,56 @@ def lazyDyn : Dyn (String × List (Time × String)) (List (Time × String)) :=
       let cst := match st with | [] => s.1 | (_, v) :: _ => v
       let memo := fillMemo cst s.2 (gridUpTo spec t)
       ((cst, memo), memo) }
+
+/-! ### wave 3: `ExternalStateAdapter.load_state` over the directory listing
+
+`_load_state` returns one entry per listed file: `bad` (unreadable, `None`) or the stored state with its logs
+still in the adapter's format (`raw`); `load_state` has to drop the `bad` ones and decompress EVERY other one
+(`ready`), whatever stands before or after it in the listing.  The defective variant is one Python loop
+`for x in state: if x is None: state.remove(x) else: decompress(x)`: the iterator works by position, so after a
+removal the element that slid into the freed position is never visited — it stays `raw` (compressed logs reach the
+server: ValueError in `__init__`) or, if it is `bad` too, stays in the list (AttributeError). -/
+
+inductive Entry where
+  | bad
+  | raw (p : Persist)
+  | ready (p : Persist)
+deriving DecidableEq, Repr
+
+def removeFirstBad : List Entry → List Entry
+  | [] => []
+  | .bad :: r => r
+  | e :: r => e :: removeFirstBad r
+
+/-- the Python loop: position `i`, list mutated under the iterator -/
+def loopSkip : Nat → Nat → List Entry → List Entry
+  | 0, _, l => l
+  | f + 1, i, l =>
+    match l[i]? with
+    | none => l
+    | some .bad => loopSkip f (i + 1) (removeFirstBad l)
+    | some (.raw p) => loopSkip f (i + 1) (l.set i (.ready p))
+    | some (.ready _) => loopSkip f (i + 1) l
+
+def perEntry : Entry → Option Entry
+  | .bad => none
+  | .raw p => some (.ready p)
+  | .ready p => some (.ready p)
+
+def loadEntries (c : Cfg) (l : List Entry) : List Entry :=
+  if c.loadIsPerEntry then l.filterMap perEntry else loopSkip l.length 0 l
+
+/-- what `BptkServer.__init__` does with the list: `none` = it raises (a `None` entry, or compressed logs in
+compressed mode), else the sessions it reconstructs -/
+def startup (compress : Bool) : List Entry → Option (List Persist)
+  | [] => some []
+  | .bad :: _ => none
+  | .raw p :: r => if compress then none else (startup compress r).map (p :: ·)
+  | .ready p :: r => (startup compress r).map (p :: ·)
+
+def listing : List (Option Persist) → List Entry
+  | [] => []
+  | none :: r => .bad :: listing r
+  | some p :: r => .raw p :: listing r
 
 end Bptk.C20
